@@ -292,8 +292,8 @@ pub fn params_json(p: &Params) -> serde_json::Value {
 
 pub fn all_params(tier: Tier) -> Vec<(Params, usize)> {
     let mut v = vec![];
-    let schemes: [(&'static str, &'static str); 3] =
-        [(STOP0, "stop0"), (DEFAULT, "default"), (TINY, "tiny")];
+    let schemes: [(&'static str, &'static str); 4] =
+        [(STOP0, "stop0"), (DEFAULT, "default"), (TINY, "tiny"), (BRANCHY, "branchy")];
     for (scheme, scheme_name) in schemes {
         for pre in [0usize, 1] {
             // (forwarder_of, heartbeat, write_menu, bound quick, bound thorough)
